@@ -40,8 +40,11 @@ impl<T> Entry<T> {
         F: FnOnce(&mut T),
     {
         let node = &mut *self.0.as_ptr();
-        let data = node.value.as_mut().expect("Node value is None");
-        f(data);
+        // the consumer may have popped the entry in the meantime, e.g. a timer
+        // that fired just before its handle is used to disarm it: nothing to do
+        if let Some(data) = node.value.as_mut() {
+            f(data);
+        }
     }
 
     /// judge if the node is still linked in the list
